@@ -287,28 +287,35 @@ def do_save(c, obj, target, T, template, case):
         return {"bytes": pickle.dumps(obj, protocol=2)}
     if target == "params_pickle_file":
         d, p = T.path("params.pickle")
-        obj.save_to_pickled_file(p)
+        try:
+            obj.save_to_pickled_file(p)
+        except BaseException:
+            shutil.rmtree(d, ignore_errors=True)
+            raise
         return {"dir": d, "params_file": p}
     ext = {"file_json": ".json", "file_pickle": ".pickle", "file_noext": ""}[target]
     d, p = T.path(template + ext)
-    o2 = copy.deepcopy(obj)      # save_to_file sets original_filename on the object
-    full = p if ext else p + ".pickle"
-    name1 = None
-    with c.guard(("file_name", "replace_parameters"), case):
-        name1 = o2.get_filename_with_replaced_params(full)
-    if name1 is None:
+    try:
+        o2 = copy.deepcopy(obj)      # save_to_file sets original_filename on the object
+        full = p if ext else p + ".pickle"
+        name1 = None
+        with c.guard(("file_name", "replace_parameters"), case):
+            name1 = o2.get_filename_with_replaced_params(full)
+        if name1 is None:
+            raise NameFailed()
+        name = o2.save_to_file(p)
+        name2 = o2.get_filename_with_replaced_params(full)
+        info = dict(returned=name, predicted=name1, predicted_again=name2, template=p,
+                    exists=os.path.isfile(name), original_filename=o2.original_filename,
+                    listing=sorted(os.listdir(d)) if os.path.isdir(d) else None)
+        text = None
+        if ext == ".json" and info["exists"]:
+            with open(name) as f:
+                text = f.read()
+        return {"dir": d, "file": name, "info": info, "text": text}
+    except BaseException:
         shutil.rmtree(d, ignore_errors=True)
-        raise NameFailed()
-    name = o2.save_to_file(p)
-    name2 = o2.get_filename_with_replaced_params(full)
-    info = dict(returned=name, predicted=name1, predicted_again=name2, template=p,
-                exists=os.path.isfile(name), original_filename=o2.original_filename,
-                listing=sorted(os.listdir(d)) if os.path.isdir(d) else None)
-    text = None
-    if ext == ".json" and info["exists"]:
-        with open(name) as f:
-            text = f.read()
-    return {"dir": d, "file": name, "info": info, "text": text}
+        raise
 
 
 def do_load(cls, h):
@@ -772,7 +779,6 @@ def main(chk: Check):
     tier = chk.tier
     top = make_tmpdir()
     try:
-        T0 = Targets(chk, top)
         with chk.guard(("file_name",), {"part": "N"}):
             part_names(chk)
 
